@@ -109,7 +109,7 @@ func cmdCheck(args []string) int {
 	if s := os.Getenv("VERIF_SEED"); s != "" {
 		seed, _ = strconv.Atoi(s)
 	}
-	timeout := 20 * time.Second
+	timeout := 40 * time.Second
 	if *tier == "thorough" {
 		timeout = 120 * time.Second
 	}
